@@ -1135,7 +1135,9 @@ CWRAPPER_OUTPUT_TYPE vecbasic_get(CVecBasic *self, size_t n, basic result)
 {
     CWRAPPER_BEGIN
 
-    SYMENGINE_ASSERT(n < self->m.size());
+    if (n >= self->m.size()) {
+        return SYMENGINE_RUNTIME_ERROR;
+    }
     basic_rcp(result) = self->m[n];
 
     CWRAPPER_END
@@ -1144,7 +1146,9 @@ CWRAPPER_OUTPUT_TYPE vecbasic_get(CVecBasic *self, size_t n, basic result)
 CWRAPPER_OUTPUT_TYPE vecbasic_set(CVecBasic *self, size_t n, const basic s)
 {
     CWRAPPER_BEGIN
-    SYMENGINE_ASSERT(n < self->m.size());
+    if (n >= self->m.size()) {
+        return SYMENGINE_RUNTIME_ERROR;
+    }
     self->m[n] = basic_rcp(s);
     CWRAPPER_END
 }
@@ -1152,7 +1156,9 @@ CWRAPPER_OUTPUT_TYPE vecbasic_set(CVecBasic *self, size_t n, const basic s)
 CWRAPPER_OUTPUT_TYPE vecbasic_erase(CVecBasic *self, size_t n)
 {
     CWRAPPER_BEGIN
-    SYMENGINE_ASSERT(n < self->m.size());
+    if (n >= self->m.size()) {
+        return SYMENGINE_RUNTIME_ERROR;
+    }
     self->m.erase(self->m.begin() + n);
     CWRAPPER_END
 }
@@ -1278,6 +1284,9 @@ CWRAPPER_OUTPUT_TYPE dense_matrix_get_basic(basic s, const CDenseMatrix *mat,
                                             unsigned long int c)
 {
     CWRAPPER_BEGIN
+    if (r >= mat->m.nrows() or c >= mat->m.ncols()) {
+        return SYMENGINE_RUNTIME_ERROR;
+    }
     basic_rcp(s)
         = mat->m.get(numeric_cast<unsigned>(r), numeric_cast<unsigned>(c));
     CWRAPPER_END
@@ -1288,6 +1297,9 @@ CWRAPPER_OUTPUT_TYPE dense_matrix_set_basic(CDenseMatrix *mat,
                                             unsigned long int c, basic s)
 {
     CWRAPPER_BEGIN
+    if (r >= mat->m.nrows() or c >= mat->m.ncols()) {
+        return SYMENGINE_RUNTIME_ERROR;
+    }
     mat->m.set(numeric_cast<unsigned>(r), numeric_cast<unsigned>(c),
                basic_rcp(s));
     CWRAPPER_END
@@ -1298,6 +1310,9 @@ CWRAPPER_OUTPUT_TYPE sparse_matrix_get_basic(basic s, const CSparseMatrix *mat,
                                              unsigned long int c)
 {
     CWRAPPER_BEGIN
+    if (r >= mat->m.nrows() or c >= mat->m.ncols()) {
+        return SYMENGINE_RUNTIME_ERROR;
+    }
     basic_rcp(s)
         = mat->m.get(numeric_cast<unsigned>(r), numeric_cast<unsigned>(c));
     CWRAPPER_END
@@ -1308,6 +1323,9 @@ CWRAPPER_OUTPUT_TYPE sparse_matrix_set_basic(CSparseMatrix *mat,
                                              unsigned long int c, basic s)
 {
     CWRAPPER_BEGIN
+    if (r >= mat->m.nrows() or c >= mat->m.ncols()) {
+        return SYMENGINE_RUNTIME_ERROR;
+    }
     mat->m.set(numeric_cast<unsigned>(r), numeric_cast<unsigned>(c),
                basic_rcp(s));
     CWRAPPER_END
